@@ -26,6 +26,7 @@ import (
 	"path"
 	"path/filepath"
 	"runtime"
+	"runtime/debug"
 	"sort"
 	"strconv"
 	"strings"
@@ -382,11 +383,15 @@ type c14Run struct {
 	loaded   *snapshotpb.JobCheckpoint
 	scratchN int
 	lastRef  string
+	l0       int
+	lastH    map[int]recovery.CheckpointHandle
+	gen      map[int]int
 	hasRef   bool
+	released bool
 }
 
-func c14Header(h string) (nOps, mem int, cfg string) {
-	nOps, mem, cfg = 1, 100000, "mem"
+func c14Header(h string) (nOps, mem, l0 int, cfg string) {
+	nOps, mem, l0, cfg = 1, 100000, 2, "mem"
 	for _, w := range strings.Fields(h) {
 		if k, v, ok := strings.Cut(w, "="); ok {
 			n, _ := strconv.Atoi(v)
@@ -397,6 +402,8 @@ func c14Header(h string) (nOps, mem int, cfg string) {
 				nOps = n
 			case "mem":
 				mem = n
+			case "l0":
+				l0 = n
 			}
 		}
 	}
@@ -612,8 +619,8 @@ func (r *c14Run) step(op string) string {
 	if len(f) == 0 {
 		return "bad-op"
 	}
-	wasDumped := r.dumped
-	r.dumped = false
+	wasDumped, wasReleased := r.dumped, r.released
+	r.dumped, r.released = false, false
 	idx := func(s string) (int, bool) {
 		i, err := strconv.Atoi(s)
 		return i, err == nil && i >= 0 && i < r.nOps
@@ -692,6 +699,7 @@ func (r *c14Run) step(op string) string {
 			return "dkv-checkpoint-error"
 		}
 		r.docURI[i] = h.URI
+		r.lastH[i] = h
 		r.held[i] = append(r.held[i], id)
 		r.acked[i] = true
 		before, pb := r.split.n.Load(), r.loc.parkedCount()
@@ -717,6 +725,43 @@ func (r *c14Run) step(op string) string {
 			return "ack-error"
 		}
 		return "ok" + r.afterAck(before, pb)
+	case "redeploy":
+		// the operator is replaced by a new instance in a NEW directory that recovers from the operator's latest
+		// DKV checkpoint: it keeps referencing the previous instance's tables while its own numbering restarts
+		if r.wiped {
+			return "wiped"
+		}
+		if r.frozen {
+			return "frozen"
+		}
+		if len(f) != 2 {
+			return "ok"
+		}
+		i, ok := idx(f[1])
+		h, has := r.lastH[i]
+		if !ok || !has {
+			return "ok"
+		}
+		r.waitTasks(r.dbs[i])
+		r.gen[i]++
+		db := r.newDB(fmt.Sprintf("/work/op%dg%d", i, r.gen[i]))
+		func() {
+			defer func() {
+				if p := recover(); p != nil {
+					db = nil
+				}
+			}()
+			if err := db.Start([]recovery.CheckpointHandle{h}); err != nil {
+				db = nil
+			}
+		}()
+		if db != nil {
+			r.keep = append(r.keep, r.dbs[i])
+			r.dbs[i] = db
+			r.held[i] = []uint64{h.CheckpointID}
+			r.waitTasks(db)
+		}
+		return "ok"
 	case "retain":
 		if r.wiped {
 			return "wiped"
@@ -781,8 +826,8 @@ func (r *c14Run) step(op string) string {
 		if r.wiped {
 			return "wiped"
 		}
-		if !r.hasRef {
-			return "nodump"
+		if !wasReleased || !r.hasRef {
+			return "norelease" // only meaningful right after dump + release: nothing else may have written
 		}
 		if now := r.referencedListing(); now != r.lastRef {
 			return "working-storage-changed before=[" + c14Short(r.lastRef) + "] after=[" + c14Short(now) + "]"
@@ -818,6 +863,7 @@ func (r *c14Run) step(op string) string {
 		r.loc.parked = append(r.loc.parked[:k:k], r.loc.parked[k+1:]...)
 		r.loc.mu.Unlock()
 		id, _ := c14JobPathID(c.path)
+		r.released = true
 		close(c.rel)
 		select {
 		case <-r.events:
@@ -954,6 +1000,27 @@ func (r *c14Run) countShape(ck *snapshotpb.JobCheckpoint) {
 			if c.ID != o.CheckpointId {
 				continue
 			}
+			bases := map[string]string{}
+			coll := false
+			for _, l := range c.Levels {
+				for _, t := range l {
+					d, b := path.Split(t.URI)
+					if od, ok := bases[b]; ok && od != d {
+						coll = true
+					}
+					bases[b] = d
+				}
+			}
+			if coll {
+				c14Stat["checkpoint_with_equal_base_names_in_two_directories"]++
+			}
+			dirs := map[string]bool{}
+			for _, d := range bases {
+				dirs[d] = true
+			}
+			if len(dirs) > 1 {
+				c14Stat["checkpoint_with_tables_in_several_directories"]++
+			}
 			l0, deep := 0, 0
 			for li, l := range c.Levels {
 				if li == 0 {
@@ -975,9 +1042,20 @@ func (r *c14Run) countShape(ck *snapshotpb.JobCheckpoint) {
 	}
 }
 
+func (r *c14Run) newDB(dir string) *dkv.DB {
+	db := dkv.New(dkv.DBOptions{FileSystem: r.dkvFS(dir), MemTableSize: uint64(r.mem), TargetFileSize: 256, L0TableNumCompactionTrigger: r.l0})
+	comp := db.VerifCompactor()
+	comp.SmallestLevelSize = 9000
+	comp.LevelSizeMultiplier = 2
+	return db
+}
+
 func c14Impl(c lib.Case) []string {
-	nOps, mem, cfg := c14Header(c.Header)
-	r := &c14Run{nOps: nOps, mem: mem, events: make(chan string, 64), errs: make(chan error, 64), split: &c14Splitter{},
+	nOps, mem, l0, cfg := c14Header(c.Header)
+	// no collection while a case runs: the DKV deletes table files from cleanups of collected tables, at moments
+	// that depend on the collector (previous instances stay referenced until the case ends)
+	defer debug.SetGCPercent(debug.SetGCPercent(-1))
+	r := &c14Run{nOps: nOps, mem: mem, l0: l0, lastH: map[int]recovery.CheckpointHandle{}, gen: map[int]int{}, events: make(chan string, 64), errs: make(chan error, 64), split: &c14Splitter{},
 		acked: map[int]bool{}, docURI: map[int]string{}, held: map[int][]uint64{}, uris: map[string]bool{},
 		atCkpt: map[c14Key]string{}, original: map[c14Key]string{}, created: map[uint64]*snapshotpb.JobCheckpoint{}}
 	if cfg == "s3" {
@@ -1004,11 +1082,7 @@ func c14Impl(c lib.Case) []string {
 	r.store.VerifSetErrChanC14(r.errs)
 	r.store.RegisterSourceSplitter(r.split)
 	for i := 0; i < nOps; i++ {
-		fs := r.dkvFS(fmt.Sprintf("/work/op%d", i))
-		db := dkv.New(dkv.DBOptions{FileSystem: fs, MemTableSize: uint64(mem), TargetFileSize: 256, L0TableNumCompactionTrigger: 2})
-		comp := db.VerifCompactor()
-		comp.SmallestLevelSize = 9000
-		comp.LevelSizeMultiplier = 2
+		db := r.newDB(fmt.Sprintf("/work/op%d", i))
 		if err := db.Start(nil); err != nil {
 			panic(err)
 		}
@@ -1069,9 +1143,22 @@ func c14Gen(r *lib.Rng, tier string, i int) lib.Case {
 	}
 	nextID := 1
 	var tags []string
+	l0 := lib.Pick(r, []int{2, 10000, 10000})
+	redeployed := false
+	maybeRedeploy := func() {
+		for o := 0; o < n; o++ {
+			if r.Chance(1, 2) {
+				ops = append(ops, fmt.Sprintf("redeploy %d", o))
+				redeployed = true
+			}
+		}
+		if redeployed {
+			writes(r.Range(4, 20)) // so that the new instance flushes tables of its own
+		}
+	}
 	writes(r.Range(0, 40))
 	// periodic checkpoints before the savepoint
-	for c := r.Intn(3); c > 0; c-- {
+	for c := lib.Pick(r, []int{0, 1, 1, 2}); c > 0; c-- {
 		ops = append(ops, "ckpt")
 		for _, a := range shuffledAcks(nil, true) {
 			ops = append(ops, a)
@@ -1084,6 +1171,7 @@ func c14Gen(r *lib.Rng, tier string, i int) lib.Case {
 			}
 		}
 		nextID++
+		maybeRedeploy()
 		writes(r.Range(0, 25))
 	}
 	// the savepoint request
@@ -1130,6 +1218,9 @@ func c14Gen(r *lib.Rng, tier string, i int) lib.Case {
 		ops = append(ops, "ckpt")
 		id2 := nextID
 		nextID++
+		if r.Chance(1, 3) {
+			maybeRedeploy()
+		}
 		writes(r.Range(0, 20))
 		sub := map[int]bool{}
 		for o := 0; o < n; o++ {
@@ -1180,7 +1271,10 @@ func c14Gen(r *lib.Rng, tier string, i int) lib.Case {
 		cfg = "s3"
 	}
 	tags = append(tags, "cfg-"+cfg)
-	return lib.Case{Header: fmt.Sprintf("M C14 ops=%d mem=%d cfg=%s", n, mem, cfg), Ops: ops, Tags: tags}
+	if redeployed {
+		tags = append(tags, "redeployed")
+	}
+	return lib.Case{Header: fmt.Sprintf("M C14 ops=%d mem=%d l0=%d cfg=%s", n, mem, l0, cfg), Ops: ops, Tags: tags}
 }
 
 func c14Fixed(tier string) []lib.Case {
@@ -1207,6 +1301,16 @@ func c14Fixed(tier string) []lib.Case {
 			"put 0 61 " + big, "put 0 62 " + big, "put 1 63 " + big, "put 0 64 01", "ckpt", "opck 1", "sp", "opck 0", "srcack", "ckpt",
 			"put 0 61 " + big, "put 0 65 " + big, "put 0 62 " + big, "del 0 64", "opck 0", "opck 1",
 			"dump", "release 0", "intact", "wipe", "load 1", "open 0", "open 1", "work", "art"}},
+		// an operator redeployed in a new directory still references the previous instance's tables while its own table
+		// numbering restarts: equal base names in two directories inside one operator checkpoint (seeded C14-1)
+		{Header: "M C14 ops=1 mem=120 l0=10000", Tags: []string{"redeployed", "seeded-C14-1"}, Ops: []string{
+			"put 0 61 " + big, "put 0 62 " + big, "put 0 63 " + big, "ckpt", "opck 0", "srcack", "dump", "release 0", "redeploy 0",
+			"put 0 64 " + big, "put 0 65 " + big, "put 0 61 " + big + "01", "sp", "opck 0", "srcack",
+			"dump", "release 0", "intact", "wipe", "load 2", "open 0", "work", "art"}},
+		{Header: "M C14 ops=2 mem=120 l0=10000 cfg=s3", Tags: []string{"redeployed", "seeded-C14-1"}, Ops: []string{
+			"put 0 61 " + big, "put 0 62 " + big, "put 1 63 " + big, "put 1 66 " + big, "ckpt", "opck 1", "opck 0", "srcack", "dump", "release 0",
+			"redeploy 0", "redeploy 1", "put 0 64 " + big, "put 0 65 " + big, "put 1 67 " + big, "put 1 63 " + big + "02", "sp", "opck 0", "opck 1", "srcack",
+			"dump", "release 0", "intact", "wipe", "load 2", "open 0", "open 1", "work", "art"}},
 		// a savepoint request folds into the pending checkpoint
 		{Header: "M C14 ops=2 mem=250", Tags: []string{"fold"}, Ops: []string{
 			"put 0 61 01", "put 1 62 02", "ckpt", "opck 1", "sp", "sp", "ckpt", "put 0 61 03", "opck 0", "srcack",
